@@ -1,9 +1,224 @@
 /-
-  QEModel.C02 — executable model for property C02 (stub; to be filled in).
+  QEModel.C02 — stationary distributions / GTH algorithm.
+  Mirrors: quantecon/markov/gth_solve.py (`gth_solve` lines 58-96 NumPy path,
+  `_gth_solve_jit` lines 114-140), quantecon/markov/core.py
+  (`MarkovChain.__init__` checks 168-199, `_compute_stationary` 386-408) and, for
+  the recurrent classes, what quantecon/_graph_tools.py asks of SciPy (sink
+  strongly connected components), re-implemented here by a reachability closure.
+
+  One scalar-generic definition `gthSolve`; instances: `Rat` (exact reference),
+  `Float` (same operations in the same order as the Numba kernel: bit-identical),
+  ordered field (theorems in QEProofs/Properties/C02.lean).
 -/
 import QEModel.Base
 namespace QE.C02
+open QE
 
-def handle (_toks : List String) : String := "bad-op"
+section generic
+variable {α : Type} [Zero α] [One α] [Add α] [Mul α] [Div α] [LE α] [DecidableLE α]
+
+/-- sequential sum `((0 + f 0) + f 1) + … + f (m-1)` — the order of Numba's `np.sum`
+    and of the `out[k] += …` loop. -/
+def sumUpTo (f : Nat → α) : Nat → α
+  | 0 => 0
+  | m + 1 => sumUpTo f m + f m
+
+/-- `scale = np.sum(A[k, k+1:n])` (lines 77 / 118) -/
+def rowScale (n : Nat) (A : M α) (k : Nat) : α :=
+  sumUpTo (fun t => A.get k (k + 1 + t)) (n - (k + 1))
+
+/-- one pass of the reduction loop body for pivot `k` with `scale = s`
+    (lines 84-86 / 125-129): `A[i,k] /= s` for `i>k`, then
+    `A[i,j] += A[i,k]*A[k,j]` for `i,j>k` (with the already divided `A[i,k]`). -/
+def redStep (n : Nat) (A : M α) (k : Nat) (s : α) : M α :=
+  M.tab n n fun i j =>
+    if k < i then
+      if j = k then A.get i k / s
+      else if k < j then A.get i j + (A.get i k / s) * A.get k j
+      else A.get i j
+    else A.get i j
+
+/-- `for k in range(n-1)` with the `scale <= 0` break (lines 76-86 / 117-129).
+    `fuel` = remaining iterations; returns the overwritten matrix and the
+    effective size (`n`, or `k+1` after a break). -/
+def reduce (n : Nat) : Nat → Nat → M α → M α × Nat
+  | 0, _, A => (A, n)
+  | fuel + 1, k, A =>
+    let s := rowScale n A k
+    if s ≤ 0 then (A, k + 1)
+    else reduce n fuel (k + 1) (redStep n A k s)
+
+/-- `x[k] = Σ_{i=k+1}^{m-1} x[i] * A[i,k]` accumulated from 0 in increasing `i`
+    (lines 91 / 134-135); `xs = [x_{k+1}, …, x_{m-1}]`. -/
+def dotCol (A : M α) (k : Nat) (xs : List α) : α :=
+  sumUpTo (fun t => xs.getD t 0 * A.get (k + 1 + t) k) xs.length
+
+/-- backward substitution (lines 89-91 / 132-135): `backSub A m j` is
+    `[x_{m-1-j}, …, x_{m-1}]`, starting from `x_{m-1} = 1`. -/
+def backSub (A : M α) (m : Nat) : Nat → List α
+  | 0 => [1]
+  | j + 1 =>
+    let xs := backSub A m j
+    dotCol A (m - 2 - j) xs :: xs
+
+/-- the unnormalised solution on the effective block `[0,m)` -/
+def gthRaw (n : Nat) (A : M α) : List α :=
+  let r := reduce n (n - 1) 0 A
+  backSub r.1 r.2 (r.2 - 1)
+
+/-- sequential sum of a list from 0 (Numba `np.sum(out)`) -/
+def sumList (l : List α) : α := sumUpTo (fun t => l.getD t 0) l.length
+
+/-- `_gth_solve_jit(A, out)` / `gth_solve(A)` for an `n × n` matrix, `n ≥ 1`:
+    reduction, backward substitution, normalisation (lines 138-140); entries
+    outside the effective block stay 0. -/
+def gthSolve (n : Nat) (A : M α) : List α :=
+  let y := gthRaw n A
+  let norm := sumList y
+  y.map (fun v => v / norm) ++ List.replicate (n - y.length) 0
+
+/-- NumPy's pairwise `np.sum` on fewer than 128 elements (used only by the non-jitted twin's
+    normalisation `x /= np.sum(x)`, where `len x` can reach 8): fewer than 8 elements
+    sequentially; otherwise 8 running accumulators combined as a balanced tree, then the
+    remainder sequentially. Differs from `sumList` only in rounding. -/
+def npSum (l : List α) : α :=
+  let n := l.length
+  if n < 8 then sumList l
+  else
+    let blocks := n / 8
+    let r : Nat → α := fun j =>
+      (List.range (blocks - 1)).foldl (fun acc b => acc + l.getD (8 * (b + 1) + j) 0) (l.getD j 0)
+    let res := ((r 0 + r 1) + (r 2 + r 3)) + ((r 4 + r 5) + (r 6 + r 7))
+    (List.range (n % 8)).foldl (fun acc t => acc + l.getD (8 * blocks + t) 0) res
+
+/-- the non-jitted twin (lines 76-96): identical reduction and substitution, the
+    normalising sum taken by NumPy's pairwise `np.sum`. -/
+def gthSolveNp (n : Nat) (A : M α) : List α :=
+  let y := gthRaw n A
+  let norm := (0 : α) + npSum (y ++ List.replicate (n - y.length) 0)
+  y.map (fun v => v / norm) ++ List.replicate (n - y.length) 0
+
+/-- Proof-side helper (not called by the driver): the same computation arranged as one
+    structural recursion on the active block `[k,n)` — reduce at `k`, solve the rest,
+    substitute back for `x_k`. `QE.C02.gthRaw_eq_rec` shows it equals `gthRaw`. -/
+def gthRec (n : Nat) : Nat → Nat → M α → List α
+  | 0, _, _ => [1]
+  | fuel + 1, k, A =>
+    let s := rowScale n A k
+    if s ≤ 0 then [1]
+    else
+      let A' := redStep n A k s
+      let xs := gthRec n fuel (k + 1) A'
+      dotCol A' k xs :: xs
+
+/-! ### recurrent classes and `MarkovChain.stationary_distributions` -/
+
+/-- edge `i → j` of the digraph `DiGraph(P)`: a non-zero (for `P ≥ 0`: positive) entry -/
+def adjB (P : M α) (i j : Nat) : Bool := !(decide (P.get i j ≤ 0))
+
+/-- one closure step: `R'(i,j) = R(i,j) ∨ ∃ k, R(i,k) ∧ k → j` (0/1 matrices) -/
+def reachStep (n : Nat) (adj : Nat → Nat → Bool) (R : M Nat) : M Nat :=
+  M.tab n n fun i j =>
+    if R.get i j = 1 || (List.range n).any (fun k => R.get i k = 1 && adj k j) then 1 else 0
+
+def iter {β : Type} (f : β → β) : Nat → β → β
+  | 0, b => b
+  | t + 1, b => iter f t (f b)
+
+/-- reachability in at most `n` steps (= reachability), reflexive -/
+def reachMat (n : Nat) (adj : Nat → Nat → Bool) : M Nat :=
+  iter (reachStep n adj) n (M.tab n n fun i j => if i = j then 1 else 0)
+
+/-- `i` is recurrent: everything reachable from `i` leads back to `i` -/
+def recurrentB (n : Nat) (R : M Nat) (i : Nat) : Bool :=
+  (List.range n).all fun j => R.get i j = 0 || R.get j i = 1
+
+/-- communication class of `i`, increasing -/
+def classOf (n : Nat) (R : M Nat) (i : Nat) : List Nat :=
+  (List.range n).filter fun j => R.get i j = 1 && R.get j i = 1
+
+/-- recurrent classes (sink strongly connected components), each increasing, ordered by
+    their smallest state -/
+def recClasses (n : Nat) (R : M Nat) : List (List Nat) :=
+  ((List.range n).filter fun i => recurrentB n R i && (classOf n R i).head? == some i).map
+    (classOf n R)
+
+/-- `P[np.ix_(rec, rec)]` (core.py:399) -/
+def restrict (P : M α) (C : List Nat) : M α :=
+  M.tab C.length C.length fun a b => P.get (C.getD a 0) (C.getD b 0)
+
+/-- `stationary_dists[i, rec_class] = x` into a zero row (core.py:397, 402) -/
+def scatter (n : Nat) (C : List Nat) (x : List α) : List α :=
+  (List.range n).map fun i =>
+    match C.findIdx? (· == i) with
+    | some a => x.getD a 0
+    | none => 0
+
+/-- `MarkovChain(P).stationary_distributions` (core.py:386-408), rows ordered by the
+    smallest state of the class (the code's order is SciPy's component labelling; the
+    harness sorts the code's rows the same way). The irreducible branch (one class =
+    all states, `gth_solve(P)`) is the special case `C = range n` of the general one. -/
+def stationaryDists (n : Nat) (P : M α) : List (List Nat × List α) :=
+  (recClasses n (reachMat n (adjB P))).map fun C =>
+    (C, scatter n C (gthSolve C.length (restrict P C)))
+
+end generic
+
+/-! ### line protocol -/
+
+/-- `MarkovChain.__init__` acceptance (core.py:176-199) in exact arithmetic: entries `≥ 0`
+    and every row sum within `np.allclose`'s `1e-8 + 1e-5·1` of 1. -/
+def validStochastic (n : Nat) (P : M Rat) : Bool :=
+  (List.range n).all fun i =>
+    (List.range n).all (fun j => decide (0 ≤ P.get i j)) &&
+    (let s := sumUpTo (fun j => P.get i j) n
+     let d := if s ≤ 1 then 1 - s else s - 1
+     decide (d ≤ (1 : Rat) / 100000000 + 1 / 100000))
+
+def isSquare {β : Type} (n : Nat) (rows : List (List β)) : Bool :=
+  rows.length == n && rows.all (fun r => r.length == n)
+
+def showRows {β : Type} (f : β → String) (rs : List (List β)) : String := showMat f rs
+
+def handle (toks : List String) : String :=
+  match toks with
+  | "gth" :: r =>
+    -- gth n=<n> jit=<0|1> A=<rows of doubles>
+    match kvNat r "n", kvNat r "jit", kvFloatMat r "A", kvRatMat r "A" with
+    | some n, some jit, some Af, some Aq =>
+      if n = 0 then "bad-op"
+      else if !(isSquare n Af) then "ERR:ValueError"
+      else
+        let Mf : M Float := M.ofRows Af
+        let Mq : M Rat := M.ofRows Aq
+        let m := (reduce n (n - 1) 0 Mq).2
+        let xf := if jit = 1 then gthSolve n Mf else gthSolveNp n Mf
+        let xq := gthSolve n Mq
+        "m=" ++ toString m ++ " f=" ++ showList showFloatBits xf ++ " q=" ++ showList showRat xq
+    | _, _, _, _ => "bad-op"
+  | "stat" :: r =>
+    -- stat n=<n> P=<rows of doubles>
+    match kvNat r "n", kvFloatMat r "P", kvRatMat r "P" with
+    | some n, some Pf, some Pq =>
+      if n = 0 then "bad-op"
+      else if !(isSquare n Pf) then "ERR:ValueError"
+      else
+        let Mf : M Float := M.ofRows Pf
+        let Mq : M Rat := M.ofRows Pq
+        if !(validStochastic n Mq) then "ERR:ValueError"
+        else
+          let dq := stationaryDists n Mq
+          -- classes are decided in exact arithmetic; the Float rows use the same classes
+          let df := dq.map fun (C, _) => scatter n C (gthSolve C.length (restrict Mf C))
+          "cls=" ++ showMat toString (dq.map (·.1)) ++ " f=" ++ showMat showFloatBits df ++
+            " q=" ++ showMat showRat (dq.map (·.2))
+    | _, _, _ => "bad-op"
+  | "classes" :: r =>
+    match kvNat r "n", kvRatMat r "P" with
+    | some n, some Pq =>
+      if n = 0 || !(isSquare n Pq) then "bad-op"
+      else showMat toString (recClasses n (reachMat n (adjB (M.ofRows Pq : M Rat))))
+    | _, _ => "bad-op"
+  | _ => "bad-op"
 
 end QE.C02
